@@ -177,6 +177,103 @@ def check_outbound(run, func, p):
     return got
 
 
+HELD = []          # (message object, its parameters when it was delivered): messages are looked at again after later traffic
+
+
+def hold(run, msg):
+    """every message delivered earlier still says what it said when it was delivered"""
+    for m, snap in HELD:
+        run.count("held_messages_rechecked")
+        now = params_of(m)
+        if now != snap:
+            run.violation("delivered-message-changed-by-later-traffic/func%d" % snap["func"],
+                          {"was": repr(snap)[:200], "now": repr(now)[:200], "after_decoding": repr(params_of(msg))[:200]})
+            del HELD[:]
+            return
+    HELD.append((msg, params_of(msg)))
+    if len(HELD) > 12:
+        del HELD[0]
+
+
+def check_staged(run, func, p, rng):
+    """the same message built the other ways the API allows (empty then filled, on a list that grows afterwards, a received
+    one extended and sent again, default-constructed): whatever leaves the codec has a correct length field and the current
+    parameters - or the codec refuses"""
+    key = {0x01: "bdt", 0x03: "bdt", 0x07: "fdt"}.get(func)
+    cls = B.bvl_pdu_types[func]
+    full = build(func, p)
+    variants = []
+    if key:
+        attr = "bvlciBDT" if key == "bdt" else "bvlciFDT"
+        items = list(getattr(full, attr))
+
+        def empty_then_assigned():
+            m = cls()
+            setattr(m, attr, list(items))
+            return m, p
+
+        def live_list_grows():
+            lst = list(items[:len(items) // 2])
+            m = cls(lst)
+            lst.extend(items[len(items) // 2:])
+            return m, p
+
+        def received_then_extended():
+            o = W.bvlc_build(func, W.bvlc_body(func, {key: p[key][:len(p[key]) // 2]}))
+            st, m = feed(o)
+            if st != "ok":
+                return None, None
+            getattr(m, attr).extend(items[len(items) // 2:])
+            return m, p
+
+        def default_constructed():
+            return cls(), {key: []}
+        # (appending to the table of a message constructed without arguments is not done: the constructors' default argument
+        #  is one shared list, a Python aliasing hazard of the API that is outside the statement)
+        variants = [empty_then_assigned, live_list_grows, received_then_extended, default_constructed]
+    elif func in (0x02, 0x06):
+        variants = [lambda: (cls(), {})]
+    elif func in (0x09, 0x0A, 0x0B):
+        def payload_afterwards():
+            m = cls()
+            m.pduData = bytearray(p["npdu"])
+            return m, p
+
+        def stale_shorter_length():
+            m = cls(p["npdu"])
+            m.bvlciLength = max(0, m.bvlciLength - rng.choice([1, 2, 4]))
+            return m, p
+        variants = [payload_afterwards, stale_shorter_length]
+    for fn in variants:
+        try:
+            m, q = fn()
+        except Exception as err:
+            run.count("staged_construction_refused")
+            continue
+        if m is None:
+            continue
+        del BOTTOM.sent[:]
+        run.case((func, "staged", fn.__name__, repr(p)[:80]), sample=None)
+        try:
+            CODEC.indication(m)
+        except Exception as err:
+            run.count("staged_messages_refused")
+            run.seen("staged_refusal_types", type(err).__name__)
+            continue
+        if len(BOTTOM.sent) != 1:
+            continue
+        got = bytes(BOTTOM.sent[0].pduData)
+        run.count("staged_frames_emitted")
+        wit = {"function": func, "params": repr(q)[:160], "built": fn.__name__, "head": got[:8], "total": len(got)}
+        if len(got) < 4 or got[0] != 0x81 or got[1] != func or struct.unpack(">H", got[2:4])[0] != len(got):
+            run.violation("emitted-frame-header-or-length-wrong/staged/%s" % fn.__name__, wit)
+            return
+        want = W.bvlc_build(func, W.bvlc_body(func, q))
+        if got != want:
+            run.violation("emitted-frame-differs/staged/%s" % fn.__name__, dict(wit, want=want[:24]))
+            return
+
+
 def feed(octets):
     del TOP.got[:]
     try:
@@ -197,6 +294,7 @@ def check_roundtrip(run, func, p, octets):
         run.violation("own-frame-not-decodable/func%d/%s" % (func, st), wit)
         return
     run.count("frames_roundtripped")
+    hold(run, msg)
     want_cls = B.bvl_pdu_types.get(func)
     if type(msg) is not want_cls:
         run.violation("function-registry-wrong/func%d" % func, wit)
@@ -256,7 +354,8 @@ def main():
     if thorough and run.args.shard is None:
         run.run_shards("rv.props.c09")
         run.exhaustive = True
-        return run.finish(require=("frames_emitted", "frames_roundtripped", "inbound_refused", "inbound_delivered"))
+        return run.finish(require=("frames_emitted", "frames_roundtripped", "inbound_refused", "inbound_delivered", "held_messages_rechecked",
+                                   "staged_messages_refused"))
     rng = run.rng("c09")
     idx = 0
     valid = []
@@ -268,6 +367,7 @@ def main():
         o = check_outbound(run, func, p)
         if o is not None:
             check_roundtrip(run, func, p, o)
+            check_staged(run, func, p, rng)
             if len(o) < 64:
                 valid.append(o)
     # inbound: all function codes with plausible bodies
@@ -324,7 +424,8 @@ def main():
         run.case(bytes(o))
         check_inbound(run, bytes(o))
     run.exhaustive = True
-    run.finish(require=("frames_emitted", "frames_roundtripped", "inbound_refused", "inbound_delivered"))
+    run.finish(require=("frames_emitted", "frames_roundtripped", "inbound_refused", "inbound_delivered", "held_messages_rechecked",
+                        "staged_messages_refused"))
 
 
 def replay(run):
